@@ -1132,7 +1132,7 @@ NONPROMO = {"int": "string", "long": "boolean", "float": "int", "double": "float
 EVO_STEPS = [
     ("reorder", 4), ("drop-field", 5), ("add-field-default", 8), ("rename-field-alias", 3), ("promote", 6),
     ("enum-add", 2), ("enum-remove-default", 3), ("rename-type-alias", 3), ("change-namespace", 2),
-    ("wrap-union", 5), ("unwrap-union", 3), ("permute-union", 3), ("union-insert-branch", 5),
+    ("wrap-union", 5), ("unwrap-union", 3), ("permute-union", 3), ("union-insert-branch", 5), ("split-named", 6),
     ("add-field-nodefault", 2), ("change-type", 2), ("enum-remove-nodefault", 2), ("fixed-size", 3), ("rename-type-noalias", 2), ("union-drop-branch", 2),
 ]
 
@@ -1318,6 +1318,31 @@ def _apply(d, step, holder, table):
         if not fixeds:
             return False
         d.choice(fixeds)["size"] += 1
+        return True
+    if step == "split-named":
+        # one writer type, two reader types: a copy under a new name that keeps the old name as alias takes over one of the
+        # places where the type is used (an enum copy also loses a symbol and gains a default)
+        uses = {}
+        for c, k in slots:
+            if c[k]["k"] == "ref" and c[k]["name"] in table:
+                uses.setdefault(c[k]["name"], []).append((c, k))
+        cands = [n for n, u in uses.items() if len(u) >= 2 and table[n]["k"] in ("enum", "fixed")]
+        if not cands:
+            return False
+        old = d.choice(cands)
+        ns, short = M.split_full(old)
+        new = (ns + "." if ns else "") + "Split" + short
+        if new in table:
+            return False
+        cp = _copy.deepcopy(table[old])
+        cp["name"] = new
+        cp["aliases"] = [old]
+        if cp["k"] == "enum" and len(cp["symbols"]) >= 2:
+            cp["symbols"] = cp["symbols"][:-1] if d.p(0.5) else cp["symbols"][1:]
+            cp["default"] = cp["symbols"][0]
+        table[new] = cp
+        c, k = d.choice(uses[old][1:] if d.p(0.7) else uses[old])
+        c[k] = {"k": "ref", "name": new}
         return True
     if step in ("rename-type-alias", "rename-type-noalias", "change-namespace"):
         if not table:
